@@ -34,6 +34,7 @@ from ..common import dumps, MachineryError
 PROFILES = {'R': ['float64', 'float32'], 'C': ['complex128', 'complex64'], 'I': ['int64', 'int32']}
 SIZES = [2, 5, 98, 100, 102, 49998, 50000, 50001]
 NAN_TOKEN = [[0, 0], [0, 0]]
+DRIFT = set()
 FIXED_AXPY = '1'      # layer-C model flag: mirrors the fallback_axpy form of the current tree
 
 
@@ -88,7 +89,7 @@ def pattern(act):
         return 'x1=x2' if x == y else 'none'
     if op == 'lincomb1':
         return 'out=None' if act['o'] == 0 else ('out=x1' if act['o'] == act['x'] else 'none')
-    if op in ('bin', 'ibin', 'assign'):
+    if op in ('bin', 'ibin', 'assign', 'abin', 'rabin', 'iabin'):
         return 'x=y' if act['x'] == act['y'] else 'none'
     return '-'
 
@@ -107,14 +108,14 @@ def target(act):
     op = act['op']
     if op in ('lincomb', 'lincomb1', 'multiply', 'divide'):
         return act['o']
-    if op in ('ibin', 'isbin', 'ipow', 'assign', 'set_zero'):
+    if op in ('ibin', 'iabin', 'isbin', 'ipow', 'assign', 'set_zero'):
         return act['x']
     return 0
 
 
 def reads(act):
     op = act['op']
-    if op in ('lincomb', 'bin', 'ibin', 'multiply', 'divide'):
+    if op in ('lincomb', 'bin', 'ibin', 'abin', 'rabin', 'iabin', 'multiply', 'divide'):
         return {act['x'], act['y']}
     if op == 'assign':
         return {act['y']}
@@ -139,6 +140,14 @@ def ibin(f, x, y):
     return x
 
 
+def raw_array(el):
+    """The ndarray / nested list a user would hand in instead of an element, sharing memory where possible."""
+    if isinstance(el.space, odl.ProductSpace):
+        return [raw_array(p) for p in el]
+    t = getattr(el, 'tensor', el)
+    return t.data
+
+
 def perform(space, objs, act, dtype):
     """Perform the action through the public API; objs: list of elements (index 0 = object 1)."""
     op = act['op']
@@ -154,6 +163,13 @@ def perform(space, objs, act, dtype):
         return PYOP[act['f']](g(act['x']), g(act['y']))
     if op == 'ibin':
         return ibin(act['f'], g(act['x']), g(act['y']))
+    if op in ('abin', 'rabin', 'iabin'):
+        arr = raw_array(g(act['y']))        # the caller's own ndarray (no copy): it must not be modified
+        if op == 'abin':
+            return PYOP[act['f']](g(act['x']), arr)
+        if op == 'rabin':
+            return PYOP[act['f']](arr, g(act['x']))
+        return ibin(act['f'], g(act['x']), arr)
     if op == 'sbin':
         return PYOP[act['f']](g(act['x']), sc(act['a']))
     if op == 'rsbin':
@@ -215,7 +231,17 @@ def observe(cz, objs, act, plen, D, pre, skip_post=None):
             ret = {'k': 'obj', 'o': hit[0], 'v': []}
         else:
             okspace = res in cz.space
-            pv, note = cz.project(res, plen, D) if okspace else ([NAN_TOKEN] * plen, 'not-in-space')
+            if okspace:
+                pv, note = cz.project(res, plen, D)
+            else:
+                # C01 is about VALUES; which space wraps the result of a NumPy-dispatched operation is C17's business.
+                # Re-wrap the values and remember the observation as drift.
+                try:
+                    arr = np.asarray(res)
+                    pv, note = cz.project(cz.space.element(arr.reshape(cz.space.shape).astype(cz.dtype)), plen, D)
+                    DRIFT.add('result of %s is wrapped in a different space than its operands (%s)' % (act['op'], cz.kind))
+                except Exception:
+                    pv, note = [NAN_TOKEN] * plen, 'not-in-space'
             if note:
                 notes.append('ret:' + note)
             ret = {'k': 'new', 'o': 0, 'v': pv}
@@ -308,8 +334,10 @@ def mirror_new_values(heap, act):
         return [add(_cmul(a, u), _cmul(b, v)) for u, v in zip(X, Y)]
     if op == 'lincomb1':
         return [_cmul(a, u) for u in X]
-    if op in ('bin', 'ibin'):
+    if op in ('bin', 'ibin', 'abin', 'iabin'):
         return [binf[act['f']](u, v) for u, v in zip(X, Y)]
+    if op == 'rabin':
+        return [binf[act['f']](v, u) for u, v in zip(X, Y)]
     if op in ('sbin', 'isbin'):
         return [binf[act['f']](u, a) for u in X]
     if op == 'rsbin':
@@ -371,7 +399,7 @@ def random_episode(rnd, profile, tid, maxlen):
     events = []
     for step in range(maxlen):
         nobj = len(heap)
-        op = rnd.choice(['lincomb'] * 6 + ['lincomb1', 'bin', 'ibin', 'sbin', 'rsbin', 'isbin', 'pow', 'ipow', 'neg',
+        op = rnd.choice(['lincomb'] * 6 + ['lincomb1', 'bin', 'ibin', 'abin', 'rabin', 'iabin', 'sbin', 'rsbin', 'isbin', 'pow', 'ipow', 'neg',
                                           'multiply', 'divide', 'assign', 'copy', 'set_zero', 'zero', 'one'])
         act = {'op': op, 'f': '', 'a': [[0, 1], [0, 1]], 'b': [[0, 1], [0, 1]], 'x': 0, 'y': 0, 'o': 0, 'n': 0}
         ro = lambda: rnd.randint(1, nobj)
@@ -383,6 +411,10 @@ def random_episode(rnd, profile, tid, maxlen):
             act.update(a=rscal(), x=ro(), o=rnd.choice([0] + list(range(1, nobj + 1))))
         elif op in ('bin', 'ibin'):
             act.update(f=rnd.choice(['add', 'sub', 'mul', 'div']), x=ro(), y=ro())
+        elif op in ('abin', 'rabin', 'iabin'):
+            act.update(f=rnd.choice(['add', 'sub', 'mul', 'div']), x=ro(), y=ro())
+            if act['x'] == act['y']:
+                continue
         elif op in ('sbin', 'rsbin', 'isbin'):
             act.update(f=rnd.choice(['add', 'sub', 'mul', 'div']), x=ro(), a=rscal())
         elif op in ('pow', 'ipow'):
@@ -396,8 +428,8 @@ def random_episode(rnd, profile, tid, maxlen):
         if profile == 'I' and (act['f'] == 'div' or op == 'divide'):
             continue
         if act['f'] == 'div' or op == 'divide':
-            den = heap[act['y'] - 1] if op in ('bin', 'ibin', 'divide') else (
-                heap[act['x'] - 1] if op == 'rsbin' else [act['a']])
+            den = heap[act['y'] - 1] if op in ('bin', 'ibin', 'divide', 'abin', 'iabin') else (
+                heap[act['x'] - 1] if op in ('rsbin', 'rabin') else [act['a']])
             if any(v == zero for v in den):
                 continue
         if op in ('pow', 'ipow') and act['n'] < 0 and any(v == zero for v in heap[act['x'] - 1]):
@@ -555,6 +587,8 @@ def run(ctx):
                                    'tlc_clauses': m.group(3)})
     ctx.extra['trace_events_validated_by_tlc'] = len(events)
     ctx.extra['trace_events_rejected_by_tlc'] = nfail
+    for msg in sorted(DRIFT):
+        ctx.drift_note(msg)
 
     # ---- 5. harvest: lincomb calls made inside the repository's own tests (hook ODL_VERIF_TRACE) ----
     from .. import harvest as H
